@@ -142,6 +142,15 @@ Theorem C16_frame_visit_stack : forall modname newmod_dict bases_ok nm fuel s st
 Proof. exact lp_frame_plain. Qed.
 Print Assumptions C16_frame_visit_stack.
 
+(* the same for every object that only its own handler activation writes - dicts, classes, instances: while one
+   of them is on the visit stack no nested call writes it (functions and cells are excluded: the method and
+   classmethod paths reach _livepatch__function without going through livepatch) *)
+Theorem C16_frame_visit_stack_general : forall modname newmod_dict bases_ok nm fuel s stack old new s' r,
+  lp modname newmod_dict bases_ok nm fuel s stack old new = Ok s' r ->
+  forall d o, In d stack -> lookup (hp s) d = Some o -> protected o = true -> lookup (hp s') d = Some o.
+Proof. exact lp_gframe_plain. Qed.
+Print Assumptions C16_frame_visit_stack_general.
+
 (* dict_shape: a successful patch returns the old module, and its __dict__ object has exactly the keys
    of the new module's dict: deleted names are gone, new names are present (xreload then adds
    __loadtime__) *)
